@@ -22,6 +22,8 @@ CONSTANTS
   WFault = FALSE
   TimeoutCarriesOver = FALSE
   WriteErrKeepsEntry = FALSE
+  AllowFire = FALSE
+  FireRegisters = FALSE
   MaxTry = 2
 PROPERTIES EventuallyReturns CloseReturns
 CHECK_DEADLOCK FALSE
